@@ -60,6 +60,10 @@ func c02(c *ctx) {
 			w.pfd(a, apps[:1+r.Intn(2)], r.Intn(4) == 0)
 		case k < 9:
 			pdrs, fars, qers := w.genSession(r.Intn(8))
+			if r.Intn(12) == 0 {
+				// a flow description naming an IPv6 network: whatever the agent makes of it, the request is answered once
+				pdrs[len(pdrs)-1].Sdf = strp([]string{"permit out ip from 2001:db8:a0b:12f0::1/64 to assigned", "permit out tcp from 2001:db8::/32 80 to assigned"}[r.Intn(2)])
+			}
 			w.nextCP++
 			node := w.nodes[a]
 			if r.Intn(8) == 0 {
